@@ -153,6 +153,8 @@ structure Rd where
   lru : BMap
   /-- `blocks_highest` -/
   high : Nat
+  /-- `drop_data`: `true` from `new` (`DROP_DATA_INITIAL`) until `disable_drop_data` -/
+  dropData : Bool := DROP_DATA_INITIAL
   deriving Repr, Inhabited
 
 def Rd.last (r : Rd) : Nat := blockOffsetLast r.fsz r.bs
@@ -160,10 +162,14 @@ def Rd.szAt (r : Rd) (bo : Nat) : Nat := blockSzAtBlockOffset bo r.last r.bs r.f
 /-- `self.blocks_read.iter().max()` with `None => 0` -/
 def Rd.maxRead (r : Rd) : Nat := r.blocksRead.foldl max 0
 
-/-- `drop_block` (with `drop_data` true): the entry leaves `blocks` and the LRU cache whether
-or not `Arc::try_unwrap` then succeeds -/
+/-- `drop_block`: `if !self.drop_data { return false }` (`DROP_BLOCK_GUARDED_BY_DROP_DATA`); otherwise
+the entry leaves `blocks` and the LRU cache whether or not `Arc::try_unwrap` then succeeds -/
 def dropBlock (r : Rd) (k : Nat) : Rd :=
-  { r with blocks := mdel r.blocks k, lru := mdel r.lru k }
+  if DROP_BLOCK_GUARDED_BY_DROP_DATA && !r.dropData then r
+  else { r with blocks := mdel r.blocks k, lru := mdel r.lru k }
+
+/-- `disable_drop_data` (called at most once: a second call panics) -/
+def Rd.disableDropData (r : Rd) : Rd := { r with dropData := false }
 
 /-- `store_block_in_storage` -/
 def storeBlock (r : Rd) (k : Nat) (b : Bytes) : Rd :=
